@@ -962,11 +962,11 @@ def c12(r):
     thorough = r.tier == "thorough"
     r.rule = ("TLC model-checks MC_Fortune (school-2 offsets over every minute distance 0..46080 stay in range and convert back exactly; "
               "school-1 offsets over all pairs of instants up to 32 days apart on a half-hour grid stay in range and differ from school 2 by at "
-              "most one slot's worth). Births (%s): Jie instants +-1 s / +-1 min / +-1 h and their day ends in 12 boundary years (1, 2, 100, "
-              "1582, 1583, 1900, 1984, 2000, 2012, 2020, 2024, 9990), 29 Feb, the 1582 switch, year ends, and seeded moments (a quarter of them "
+              "most one slot's worth). Births (~1 570 fixed + %s): Jie instants +-1 s / +-1 min / +-1 h and their day ends in 12 boundary years (1, 2, 100, "
+              "1582, 1583, 1900, 1984, 2000, 2012, 2020, 2024, 9990), 29 Feb (incl. the leap days 4 and 8 years before every non-leap century year), the 1582 switch, year ends, the days of years 15/18 whose lunar year runs ahead of the civil year, and seeded moments (a quarter of them "
               "on the 23:00 / midnight / 01:00 edges); 2 genders x 2 schools each: direction, start offset, start date (through Civil.tla stepping), "
               "10 great fortunes with ages/years/pillars, every annual and minor fortune, monthly fortunes of two years. "
-              "Distinct non-trivial case = distinct (birth, gender, school) chart." % ("40 000 births" if thorough else "1 000 births"))
+              "Distinct non-trivial case = distinct (birth, gender, school) chart." % ("40 000 seeded births" if thorough else "600 seeded births"))
     r.assumptions += ["school-1 start offsets are not judged when the birth or the Jie lies in 23:00-23:59 (the statement does not say which two-hour slot that hour counts as)",
                       "month / hour / year pillars of the birth are the library's (C05)"]
     r.build()
